@@ -1,6 +1,6 @@
 (* C18 — Server discovery yields each wanted server exactly once.
    Only statements, closed by [exact]; proofs live in Proofs/C18_Discovery.v. *)
-From DT Require Import Lib.Bytes Model.C18_Discovery Proofs.C18_Discovery.
+From DT Require Import Lib.Bytes Lib.Split Model.C18_Discovery Proofs.C18_Discovery.
 From Coq Require Import Permutation.
 
 (* For every entry list, every optional filter and every index sequence the random source can
